@@ -338,6 +338,8 @@ fn run_dur_int<W: Write>(cx: &mut Cx<W>) {
     dur_int!(cx, u32, Si, "si");
     dur_int!(cx, i64, MinuteBase, "minute");
     dur_int!(cx, u64, NanoBase, "nanosecond");
+    dur_int!(cx, i64, MilliBase, "millisecond");
+    dur_int!(cx, u64, MilliBase, "millisecond");
 }
 #[inline(never)]
 fn run_trig<W: Write>(cx: &mut Cx<W>) {
